@@ -14,6 +14,41 @@ import (
 )
 
 func extraCommand(name string, args []string) (int, bool) {
+	switch name {
+	case "reference":
+		// prints the reference table of non-API functions (receiver, signature, callers) of the analysed tree;
+		// regenerate checker/load/reference.json from it only when the rules are re-anchored on a new tree
+		all := map[string]*load.RefFn{}
+		for _, cfg := range []string{"amd64", "purego", "arm64", "386"} {
+			p, err := load.Load(cfg)
+			if err != nil {
+				fmt.Fprintln(os.Stderr, err)
+				return 1, true
+			}
+			for n, e := range p.ReferenceTable() {
+				if old, ok := all[n]; ok {
+					old.Configs = append(old.Configs, cfg)
+					for _, c := range e.Callers {
+						found := false
+						for _, o := range old.Callers {
+							if o == c {
+								found = true
+							}
+						}
+						if !found {
+							old.Callers = append(old.Callers, c)
+						}
+					}
+					sort.Strings(old.Callers)
+				} else {
+					all[n] = e
+				}
+			}
+		}
+		b, _ := json.MarshalIndent(all, "", " ")
+		fmt.Println(string(b))
+		return 0, true
+	}
 	return 0, false
 }
 
